@@ -99,5 +99,26 @@ theorem end_blocker_body_as_modelled : Generated.endBlockStatements = ["defer te
 theorem module_account_permissions_as_modelled :
     Generated.allianceModulePerms = ["authtypes.Burner", "authtypes.Minter"] ∧ Generated.rewardsPoolPerms = [] := by decide
 
+
+/-- the module holds 23761328.028984346229163360 of validator 1's 120674618.548346730589807969 shares, backed by 39728120 tokens:
+    its stake is worth 7822629.9999999999999999996 tokens — `Quo` says 7822630 -/
+def wRound : World :=
+  { (default : World) with
+    time := 100, flag := true,
+    vals := [(1, { hist := [], totalDelShares := [], valShares := [] })],
+    bank := [((accBonded, 9), 39728120)],
+    staking := { bondDenom := 9, unbondingTime := 50, vals := [(1, { status := 3, jailed := false, tokens := 39728120, delShares := 120674618548346730589807969, modShares := some 23761328028984346229163360 })] },
+    params := { rewardDelay := 0, takeRateInterval := 1, lastTakeRateClaim := 0 } }
+
+/-- REFUTES end-of-block totality in a healthy state (known finding D24 `rebalance_unbond_rounds_past_delegation`): with no alliance
+    left every target is 0, the rebalancer reads the module's stake as `Quo` rounds it — 7822630 exactly, the true value being
+    4·10⁻¹⁹ less — asks x/staking to unbond 7822630 tokens, and `ValidateUnbondAmount` refuses: the shares that amount is worth
+    exceed the delegation -/
+theorem rebalance_rounds_past_the_delegation :
+    quo (mulInt 23761328028984346229163360 39728120) 120674618548346730589807969 = 7822630 * one ∧
+    (23761328028984346229163360 : Int) * 39728120 < 7822630 * 120674618548346730589807969 ∧
+    (rebalanceHook [] wRound).1.toBool = false ∧ (endBlocker wRound).1.toBool = false := by
+  refine ⟨by decide +kernel, by decide +kernel, by decide +kernel, by decide +kernel⟩
+
 end C17
 end Alliance
